@@ -241,17 +241,21 @@ def gen_case(rng, stream, printer):
             "decls": decls, "eqs": [], "pts": rng.randrange(1 << 30)}
     if stream == "collide":
         _add_collision(rng, case)
-    if stream == "value":
+    # the inputs of the fixed findings C24-F3/F4/F5 also occur in the main stream
+    feats = set()
+    if stream == "main":
+        feats = {f for f in ("value", "reserved", "other-prefix") if rng.random() < 0.12}
+    if stream == "value" or "value" in feats:
         vn = "pv" + str(rng.randint(0, 9))
         kind = rng.choice(["parameter", "constant"])
         val = rng.choice([["u", "-", ["n", "2"]], ["b", "*", ["n", "2"], ["n", "3"]], ["u", "-", ["n", "0.5"]],
                           ["b", "+", ["n", "1"], ["n", "1"]]])
         case["decls"].append({"n": vn, "pre": kind, "val": val})
-    if stream == "reserved":
+    if stream == "reserved" or "reserved" in feats:
         case["decls"].append({"n": rng.choice(RESERVED), "pre": rng.choice(["", "", "parameter", "input"])})
         if case["decls"][-1]["pre"] == "parameter":
             case["decls"][-1]["val"] = ["n", "1"]
-    if stream == "other-prefix":
+    if stream == "other-prefix" or "other-prefix" in feats:
         case["decls"].append({"n": "dd" + str(rng.randint(0, 9)), "pre": "discrete"})
     cls_of = {x["cls"]: x for x in case["subs"]}
     dotted = ["%s.%s" % (i["n"], d["n"]) for i in case["insts"] for d in cls_of[i["cls"]]["decls"]]
@@ -830,8 +834,8 @@ def run(ctx):
         c.pop("_file", None)
         ctx.count("corpus")
         dispatch(ctx, c.get("case", c), drv, printer)
-    n_models = 170 if quick else 5000
-    n_gram = 220 if quick else 6000
+    n_models = 170 if quick else 3000
+    n_gram = 220 if quick else 3600
     streams = ["main"] * 11 + ["nested"] * 4 + ["collide"] * 2 + ["value", "reserved", "other-prefix"]
     # two sub-streams seeded from the run's PRNG, so that cutting one short (time budget on a loaded
     # machine) does not change the cases of the other
@@ -885,4 +889,4 @@ MANIFEST = dict(
                "text (exercised, not proved); the model, not the Python, is what the theorems are about.",
     technique="Lean 4 proof (structural induction, parse-print round trip by a follow-set invariant) + model/implementation correspondence",
 )
-READY = False
+READY = True
